@@ -291,3 +291,22 @@ def seed_from_init(it, cls, obj, params=None, skip=()):
             obj.fields[tgt.attr] = v
             done.append(tgt.attr)
     return done
+
+
+def backing_attr(repo, cls, prop):
+    """The attribute a trivial property returns (`return self.<attr>`), found through the MRO; None if the property is not of
+    that form.  Lets a rule put a value where the class itself would look for it, whatever the attribute is called."""
+    g = repo.resolve(cls, prop, "getter")
+    if g is None:
+        return None
+    body = [st for st in g.node.body if not (isinstance(st, ast.Expr) and isinstance(st.value, ast.Constant) and isinstance(st.value.value, str))]
+    if len(body) == 1 and isinstance(body[0], ast.Return) and isinstance(body[0].value, ast.Attribute) \
+            and isinstance(body[0].value.value, ast.Name) and body[0].value.value.id == "self":
+        return body[0].value.attr
+    return None
+
+
+def set_backed(repo, obj, prop, value):
+    """obj.<prop> shall read `value`: stored in the property's backing attribute (or under the property's own name)."""
+    attr = backing_attr(repo, obj.cls, prop) if obj.cls is not None else None
+    obj.fields[attr or prop] = value
